@@ -235,6 +235,11 @@ def access_case(draw):
         d = draw(st.sampled_from(data))
         cnt = len(d["string"]) + 1 if d["type"] == "string" else d["n"] if d["type"] == "zero" else len(d["values"])
         idx = draw(st.one_of(st.none(), st.integers(0, cnt - 1), st.integers(0, cnt - 1), st.just(cnt - 1)))
+        _, variables, _ = asm.layout(data, 0x4000)
+        a0, size, _n = variables[d["name"]]
+        near = [kk for target in (0x800, 0x1000, 0x1800) for kk in [(-(a0 - 0x4000 - target) // size) + j for j in (-1, 0, 1)] if 0 <= kk < cnt]
+        if near and draw(st.integers(0, 2)) == 0:
+            idx = draw(st.sampled_from(near))
         # use the access width that matches the element type (others would run over the variable's end)
         w = asm.ELEM[d["type"]]
         op = draw(st.sampled_from(["la"] + {1: ["lb", "lbu", "sb"], 2: ["lh", "lhu", "sh"], 4: ["lw", "sw"]}[w] * 2))
